@@ -731,6 +731,8 @@ func TestVerifC09(t *testing.T) {
 			r.Eval(int(res.Res.Executions))
 			if !res.Res.Complete && len(res.Viol) == 0 {
 				skipped++
+			} else if !res.Res.Complete {
+				r.Cap("exploration of violating programs stopped after 5 violating executions each")
 			}
 			if res.Harness != "" {
 				harness = append(harness, it.String()+": "+res.Harness)
